@@ -16,7 +16,9 @@ WEIGHTS = [("hostile", 3), ("multi", 3), ("event", 2), ("fastlat", 2)]
 
 
 def plan(tier, seed):
-    return _sim.plan_profiles(tier, seed, WEIGHTS, 4000, 60000)
+    cases = _sim.plan_profiles(tier, seed, WEIGHTS, 4000, 60000)
+    n = 1500 if tier == "quick" else 40000
+    return cases + [{"mode": "live_walk", "seed": seed, "idx": i, "cfg": {"n": 1 + i % 3, "async": i % 4 == 3}, "len": 9 + i % 6} for i in range(n)]
 
 
 def build(desc):
@@ -38,6 +40,24 @@ def build(desc):
 
 
 def run(desc):
+    if desc.get("mode") == "live_walk":
+        from . import c11
+
+        def observe(r):
+            m = r.w.market(r.mid)
+            if m is not None:
+                r.tr.framework = r.w.fw
+                observers.blotter_coherence(r.tr, m, "live")
+
+        r = c11.walk(desc, observe)
+        out = O.Out(PROPERTY)
+        out.violations += [dict(v, tags=dict(v["tags"], exec="Betfair")) for v in r.tr.online if v["property"] == PROPERTY]
+        for k, v in r.tr.counters.items():
+            if k.startswith("rule_"):
+                out.c(k, v)
+        out.c("live_walks")
+        out.d("c15live:%d:%s:%s" % (desc["cfg"]["n"], r.restarted, bool(r.replaced)))
+        return out.result()
     case, snaps = build(desc)
     tr = simrun.run_case(case, observers=[observers.blotter_coherence], mw_observers=[observers.blotter_coherence])
     out = O.Out(PROPERTY)
